@@ -3,6 +3,7 @@ import Kio.Proofs.GenCoherent
 import Kio.Props.C02
 import Kio.Pinned.Defs
 import Kio.Generated.Info
+import Kio.Generated.GenObserved
 /-!
 # C16 — the generator translates any well-formed message definition faithfully (partial)
 
@@ -120,6 +121,14 @@ theorem defaults (d : MsgDef) (b : List (List Nat)) (v : Nat) (gs : List GClass)
       ∀ (j : Nat) (f : Field) (ef : DefSpec.ExpField), g.schema.fields[j]? = some f → e.fields[j]? = some ef →
         dfltAgrees ef.dflt f = true :=
   module_defaults d b v gs hs h
+
+set_option maxRecDepth 100000 in
+/-- the model's name-based special cases (error-code names, the time-field tables, the `…Ms` rule)
+    are the code's: `PrimitiveField.parse_obj` observed by the translator on every candidate name ×
+    every primitive type agrees with `resolvePrim` row by row -/
+theorem resolve_prim_observed :
+    resolveOk Generated.resolveRows = true ∧ resolveCovers Generated.resolveRows = true := by
+  decide +kernel
 
 set_option maxRecDepth 100000 in
 /-- non-vacuity: at least 600 of the 666 (pinned definition, version) pairs are in the supported
